@@ -183,6 +183,7 @@ func (u *Unit) typeFacts(st *State, v Value) {
 			st.assume(Le(IntLit(0), off))
 			st.assume(Le(IntLit(0), ln))
 			st.assume(Le(ln, cp))
+			st.assume(Le(cp, pow2(46))) // no slice exceeds the address space
 			continue
 		}
 		if strings.HasSuffix(l.Path, ".base") || strings.HasSuffix(l.Path, ".off") || strings.HasSuffix(l.Path, ".cap") {
@@ -421,6 +422,7 @@ func (u *Unit) sliceFacts2(st *State, v Value) {
 			st.assume(Le(IntLit(0), v.L[i-1]))
 			st.assume(Le(IntLit(0), v.L[i]))
 			st.assume(Le(v.L[i], v.L[i+1]))
+			st.assume(Le(v.L[i+1], pow2(46))) // no slice exceeds the address space
 		}
 	}
 }
